@@ -611,6 +611,139 @@ def rule_g(ctx: Context, R: Reporter, vf: FuncInfo):
     R.floor("C20.g", "typed returns of the volume metric", n, 2)
 
 
+def rule_i(ctx: Context, R: Reporter, vf: FuncInfo):
+    """C20.i  degenerate clouds reach the documented fallback.  The volume metric handles a rank-deficient covariance
+    (all the weight on one particle or on duplicates, a coordinate pinned to a constant) by a ridge and, failing that,
+    by the except branch of the guarded inversion.  That only works if nothing *before* the guarded inversion is
+    undefined exactly when the covariance is singular: a division (or reciprocal / negative power) whose divisor is
+    computed from the covariance or from a per-dimension spread of the samples -- its diagonal, a standard deviation,
+    the trace, the determinant, eigenvalues -- is zero in precisely those cases; 0/0 puts NaN into the matrix and
+    `matrix_rank` / the decomposition then raises outside the try.  A divisor protected by an added positive constant or a
+    positive floor is fine, and so is anything inside the guarded block."""
+    from ..model import ufunc_as_operator
+
+    flow = flow_of(vf.node)
+    cfg = flow.cfg
+    ext = lambda c: ctx.res.external_name(vf, c) or ""  # noqa: E731
+    LIN = ("numpy.linalg.matrix_rank", "numpy.linalg.inv", "numpy.linalg.pinv", "numpy.linalg.solve", "numpy.linalg.cholesky", "numpy.linalg.eigh", "numpy.linalg.eigvalsh",
+           "numpy.linalg.det", "numpy.linalg.slogdet", "scipy.linalg.solve", "scipy.linalg.cho_solve", "scipy.linalg.eigh")
+    cov_names = {a.id for c in calls_in(vf.node) if ext(c) in LIN for a in c.args[:1] if isinstance(a, ast.Name)}
+    if not cov_names:
+        raise AnalysisError("C20.i: the matrix handed to the rank test / inversion is not a plain name")
+    SPREAD = ("numpy.std", "numpy.var", "numpy.nanstd", "numpy.nanvar", "numpy.ptp", "numpy.cov")
+
+    def is_spread_call(c) -> bool:
+        return isinstance(c, ast.Call) and (ext(c) in SPREAD or (isinstance(c.func, ast.Attribute) and c.func.attr in ("std", "var", "ptp") and not ext(c).startswith("numpy.")))
+
+    # names computed from the covariance (or from a spread of the samples), transitively
+    tainted = set(cov_names)
+    for _ in range(8):
+        more = set()
+        for ds_ in flow.defs_at.values():
+            for d in ds_:
+                if d.value is None or d.name in tainted:
+                    continue
+                names = {x.id for x in ast.walk(d.value) if isinstance(x, ast.Name)}
+                if (names & tainted) or any(is_spread_call(c) for c in ast.walk(d.value)):
+                    more.add(d.name)
+        if not more - tainted:
+            break
+        tainted |= more
+    try_bodies = [t for t in ast.walk(vf.node) if isinstance(t, ast.Try) and any(h.type is None or "LinAlgError" in unparse(h.type) or "Exception" in unparse(h.type) for h in t.handlers)]
+    in_try = {id(x) for t in try_bodies for b in t.body for x in ast.walk(b)}
+
+    def positive_const(e) -> bool:
+        v = const_value(e)
+        return isinstance(v, (int, float)) and not isinstance(v, bool) and v > 0
+
+    def protected(div) -> bool:
+        """divisor + positive constant / max(divisor, positive) / clip(divisor, positive, ..)"""
+        if isinstance(div, ast.BinOp) and isinstance(div.op, ast.Add) and (positive_const(div.left) or positive_const(div.right)):
+            return True
+        if isinstance(div, ast.Call) and ext(div) in ("numpy.maximum", "numpy.fmax", "builtins.max") and any(positive_const(a) for a in div.args):
+            return True
+        if isinstance(div, ast.Call) and ext(div) == "numpy.clip" and len(div.args) >= 2 and positive_const(div.args[1]):
+            return True
+        if isinstance(div, ast.Call) and ext(div) in ("numpy.sqrt", "numpy.abs") and div.args:
+            return protected(div.args[0])
+        return False
+
+    def from_cov(e) -> bool:
+        for x in ast.walk(e):
+            if isinstance(x, ast.Name) and x.id in tainted:
+                return True
+            if is_spread_call(x):
+                return True
+        return False
+
+    n_sites = 0
+    hazards = []
+    for nd in cfg.stmt_nodes():
+        if nd.ast is None or nd.kind not in ("stmt", "test"):
+            continue
+        for x in ast.walk(nd.ast):
+            if id(x) in in_try:
+                continue
+            div = None
+            if isinstance(x, ast.Call):
+                op_ = ufunc_as_operator(ext(x), x)
+                if isinstance(op_, ast.BinOp) and isinstance(op_.op, (ast.Div, ast.FloorDiv, ast.Mod)):
+                    div = op_.right
+                elif ext(x) == "numpy.reciprocal" and x.args:
+                    div = x.args[0]
+            elif isinstance(x, ast.BinOp) and isinstance(x.op, (ast.Div, ast.FloorDiv, ast.Mod)):
+                div = x.right
+            elif isinstance(x, ast.BinOp) and isinstance(x.op, ast.Pow) and isinstance(const_value(x.right), (int, float)) and const_value(x.right) < 0:
+                div = x.left
+            elif isinstance(x, ast.AugAssign) and isinstance(x.op, (ast.Div, ast.FloorDiv, ast.Mod)):
+                div = x.value
+            if div is None:
+                continue
+            n_sites += 1
+            if from_cov(div) and not protected(div):
+                # the divisor may have been floored in an earlier statement (`ev = np.maximum(ev, floor)`): look at what the
+                # name is bound to.  A constant positive floor protects; a floor that is itself computed (a relative tolerance
+                # `c * ev[-1]`) protects when the facts holding here say that quantity is positive; otherwise this site is
+                # not decided (an honest "cannot tell", not a violation)
+                rdiv = ExprResolver(vf.node).resolve(div, nd)
+                if protected(rdiv):
+                    continue
+                floors = [c for c in ast.walk(rdiv) if isinstance(c, ast.Call) and ext(c) in ("numpy.maximum", "numpy.fmax", "numpy.clip") and len(c.args) >= 2]
+                if floors:
+                    from ..util import conds_holding_at as _cha_i
+
+                    facts_txt = {(norm_text(ExprResolver(vf.node).resolve(a_, nd)), p_) for (t_, pol_) in _cha_i(cfg, nd) for (a_, p_) in split_cond(t_, pol_)}
+                    ok_floor = False
+                    for fl_ in floors:
+                        f_ = fl_.args[1]
+                        # c * Q with c a positive constant and a fact `Q > 0` on every path here
+                        if isinstance(f_, ast.BinOp) and isinstance(f_.op, ast.Mult):
+                            for c_, q_ in ((f_.left, f_.right), (f_.right, f_.left)):
+                                cval = const_value(c_)
+                                cname_pos = isinstance(c_, ast.Name) and c_.id.isupper()  # a module constant such as SQRTEPS: positivity is checked below
+                                if (isinstance(cval, (int, float)) and cval > 0) or cname_pos:
+                                    qt = norm_text(q_)
+                                    if (f"{qt}>0", True) in facts_txt or (f"{qt}>0.0", True) in facts_txt or (f"{qt}<=0", False) in facts_txt or (f"{qt}<=0.0", False) in facts_txt:
+                                        ok_floor = True
+                    if ok_floor:
+                        continue
+                    raise AnalysisError(f"C20.i: `{unparse(x)[:60]}` divides by a quantity floored at `{unparse(floors[0].args[1])[:40]}`, whose positivity cannot be established here")
+                hazards.append((nd, x, div))
+    R.analysed["C20.i:division_sites_outside_the_guarded_block"] = n_sites
+    seen = set()
+    for (nd, x, div) in hazards:
+        k = norm_text(div)[:60]
+        if k in seen:
+            continue
+        seen.add(k)
+        R.check("C20.i", "nothing before the guarded inversion divides by a quantity that vanishes with the covariance", False, vf, nd.ast,
+                msg=f"{vf.short}: `{unparse(x)[:70]}` divides by `{unparse(div)[:40]}`, which is computed from the covariance / a per-dimension spread of the samples and is exactly zero for the "
+                    f"rank-deficient clouds this function must survive (all weight on one particle, duplicates, a constant coordinate): 0/0 puts NaN into the matrix and the rank test or the "
+                    f"decomposition raises outside the try instead of taking the ridge / fallback", key=f"degenerate-division:{k}")
+    if not hazards:
+        R.check("C20.i", "nothing before the guarded inversion divides by a quantity that vanishes with the covariance", True, vf, vf.node, key="degenerate-division")
+
+
 def rule_h(ctx: Context, R: Reporter, vf: FuncInfo):
     """C20.h  per-coordinate typing of the volume metric (x_i -> d_i x_i, a diagonal invertible linear map) for samples
     whose covariance has full rank -- the case the property quantifies over; the branch guarded by the
@@ -668,10 +801,11 @@ def run(ctx: Context, R: Reporter):
     R.guard(rule_f, ctx, R, vf)
     R.guard(rule_g, ctx, R, vf)
     R.guard(rule_h, ctx, R, vf)
+    R.guard(rule_i, ctx, R, vf)
 
 
 def variants():
-    from ..variants import Variant, normalisation_twins, alpha_rename, delete_stmt, insert_before, replace_expr, replace_stmt
+    from ..variants import Variant, normalisation_twins, alpha_rename, delete_stmt, insert_after, insert_before, replace_expr, replace_stmt
 
     tl = "tempest/tools.py"
     return [
@@ -699,6 +833,15 @@ def variants():
         *normalisation_twins("a-trim", tl, "trim_weights", "weights /= np.sum(weights)", "weights", True, ["C20.a", "C20.b", "C20.c", "C20.d", "C20.e"]),
         *normalisation_twins("d-ess", tl, "effective_sample_size", "weights = weights / np.sum(weights)", "weights", False, ["C20.d", "C20.e"]),
         *normalisation_twins("f-vv", tl, "volume_variation", "w = w / np.sum(w)", "w", False, ["C20.f", "C20.d"]),
+        # C20.i: nothing before the guarded inversion may divide by something that vanishes with the covariance
+        Variant("i-standardise-by-diagonal", "bad", insert_after(tl, "volume_variation", "cov = np.dot(xc.T, xc * w[:, np.newaxis])", "scale = np.sqrt(np.diag(cov))\nxc = xc / scale\ncov = cov / np.outer(scale, scale)"), ["C20.i"], quick=True),
+        Variant("i-normalise-by-trace", "bad", insert_after(tl, "volume_variation", "cov = np.dot(xc.T, xc * w[:, np.newaxis])", "cov = cov / np.trace(cov)"), ["C20.i"], quick=True),
+        Variant("i-standardise-by-sample-std", "bad", insert_after(tl, "volume_variation", "cov = np.dot(xc.T, xc * w[:, np.newaxis])", "xc = xc / np.std(x, axis=0)"), ["C20.i"]),
+        Variant("i-inplace-by-sqrt-diagonal", "bad", insert_after(tl, "volume_variation", "cov = np.dot(xc.T, xc * w[:, np.newaxis])", "cov /= np.sqrt(np.diag(cov))[:, None]"), ["C20.i"]),
+        Variant("i-ufunc-divide-by-determinant", "bad", insert_after(tl, "volume_variation", "cov = np.dot(xc.T, xc * w[:, np.newaxis])", "cov = np.divide(cov, np.linalg.det(cov))"), ["C20.i"]),
+        Variant("i-negative-power-of-diagonal", "bad", insert_after(tl, "volume_variation", "cov = np.dot(xc.T, xc * w[:, np.newaxis])", "cov = cov * np.diag(cov) ** -1"), ["C20.i"]),
+        Variant("i-benign-division-by-dimension", "benign", insert_after(tl, "volume_variation", "cov = np.dot(xc.T, xc * w[:, np.newaxis])", "n_eff = float(n_samples) / n_dim")),
+        Variant("i-benign-division-inside-guarded-block", "benign", insert_after(tl, "volume_variation", "cov_inv = np.linalg.inv(cov)", "_inv_det = 1.0 / np.linalg.det(cov)"), quick=True),
         Variant("benign-rename-mask", "benign", alpha_rename(tl, "trim_weights", "mask", "keep"), quick=True),
         Variant("benign-ess-product", "benign", replace_expr(tl, "effective_sample_size", "weights ** 2.0", "weights * weights")),
     ]
